@@ -195,8 +195,23 @@ class Pristine:
 
 
 class History:
+    # one per process (shard): a child forked before the first history of this process ran anything, and the operations of
+    # the histories run since ({"op": "new_history"} separates them) - that log, followed by the current history, is the
+    # exact record of what this process has done to the library, and is what a process-state violation is replayed from
+    PROCESS = {"pid": None, "zygote": None, "log": []}
+
     def __init__(self):
-        self.pristine = Pristine() if hasattr(os, "fork") else None   # before anything of this history has run
+        P = History.PROCESS
+        if P["pid"] != os.getpid() or len(P["log"]) > 3000:
+            if P["pid"] == os.getpid() and P["zygote"] is not None:
+                P["zygote"].close()
+            P.update(pid=os.getpid(), zygote=Pristine() if hasattr(os, "fork") else None, log=[])
+        self.pristine = P["zygote"]
+        self.own = []
+        self.blame_process = False
+        self._reset_pools()
+
+    def _reset_pools(self):
         self.shots = []     # {"spec": dict, "obj": Shot}
         self.calcs = []     # {"cfg": dict, "obj": Calculator, "last_shot": int|None, "ops": int}
         self.results = []   # (live object, raw snapshot)
@@ -265,9 +280,10 @@ class History:
         clean = _do(op, _calc_for(c["pin"]), build.shot(s["spec"]))
         far = self.pristine.ask(op, c["pin"], s["spec"]) if self.pristine is not None else None
         if far is not None and far[0] == "ok" and far[1] != repr(clean) and live == clean:
+            self.blame_process = True
             r.bad(f"C10:process-state-dependent-result:{op['op']}", f"{op['op']} computed in this process (fresh calculator, shot rebuilt from the model) differs "
-                  f"from the same computation in a process forked before the history began: an earlier operation left something behind in "
-                  f"process-global state (here {repr(clean)[:110]} vs untouched process {far[1][:110]})")
+                  f"from the same computation in a process forked before this process had run anything: an earlier operation left something "
+                  f"behind in process-global state (here {repr(clean)[:110]} vs untouched process {far[1][:110]})")
         elif far is not None and far[0] == "exc":
             raise RuntimeError("pristine process failed: " + far[1])
         if live != clean:
@@ -323,9 +339,20 @@ class History:
         self.lab.add("probed-after-raise")
 
     # -- interpreter
+    def case_prefix(self):
+        """operations of the earlier histories of this process - part of the case only when process state is what failed"""
+        return list(History.PROCESS["log"]) if self.blame_process else []
+
     def apply(self, op):
         r = Res()
         name, a = op["op"], op["args"]
+        if name == "new_history":      # only in replayed cases: the boundary between two histories of one process
+            History.PROCESS["log"].extend(self.own + [{"op": "new_history", "args": {}}])
+            self.own = []
+            self._reset_pools()
+            lib.reset_state()
+            return r
+        self.own.append(op)
         if name in ("new_shot", "new_shot_extreme"):
             self._new_shot(a["spec"])
             if name == "new_shot_extreme":
@@ -438,9 +465,9 @@ class History:
         return out
 
     def close(self):
-        if self.pristine is not None:
-            self.pristine.close()
-            self.pristine = None
+        if self.own:
+            History.PROCESS["log"].extend(self.own + [{"op": "new_history", "args": {}}])
+            self.own = []
 
 
 _c, _s = st.integers(0, 2), st.integers(0, 3)
